@@ -86,6 +86,8 @@ PROPS = {
             f"{MAT}.drop_old_proposals",
             f"{PM}._power_managing_actor:PowerManagingActor._calculate_shifted_bounds",
             f"{PM}._power_managing_actor:PowerManagingActor._calculate_target_power",
+            f"{PM}._power_managing_actor:PowerManagingActor._send_updated_target_power",
+            f"{PM}._power_managing_actor:PowerManagingActor._run",
         ],
         lemmas=["proposal_eq_is_key_equality", "proposal_hash_respects_eq", "proposal_lt_strict_total_order_on_keys"],
         bounded=[],
@@ -96,8 +98,12 @@ PROPS = {
                     "the system inclusion bounds, in all three branches.",
         assumptions=[REALS, EXTRACTION,
                      "history quantifier: carried by the class invariant 'a stored target has a bucket' (required, and "
-                     "proved preserved) - every event handler funnels into _calculate_target_power, and the expiry timer's "
-                     "drop_old_proposals is proved to keep buckets and stored targets"],
+                     "proved preserved) - the event loop _run is proved (frequenz.channels select()/selected_from and Timer assumed, "
+                     "events in any order and number, one component group and one priority as structural bound) to send "
+                     "requests only through _send_updated_target_power, which recomputes from the current state; the expiry "
+                     "timer's drop_old_proposals is proved to keep buckets and stored targets",
+                     "not under contract: _add_system_bounds_tracker / _bounds_tracker (bounds updates arrive through a task "
+                     "that calls _send_updated_target_power) and _send_reports"],
     ),
     "C13": dict(
         modules=["fe_steps", "fe_evaluator"],
